@@ -80,6 +80,7 @@ pub fn output_tokens(
         trait_dependency_mode: &trait_dependency_mode,
         sub_attributes: &sub_attributes,
         unsafety: out_trait.unsafety,
+        associated_types: &out_trait.associated_types,
     }
     .gen_trait_def(
         &out_trait.vis,
@@ -114,6 +115,40 @@ pub fn output_tokens(
         .iter()
         .map(|trait_fn| gen_delegation_method(trait_fn, generic_idents, &attr, contains_async));
 
+    // Associated types can only be forwarded when `Impl<T>` delegates to a `T` that implements the trait itself:
+    // a trait object (`delegate_by = ref`/`Borrow`) would have to name them, a delegation target trait is a different trait.
+    let type_items = match (&attr.impl_trait, &attr.delegation_kind) {
+        (None, None | Some(SpanOpt(Delegate::BySelf, _))) => {
+            let impl_t = &generic_idents.impl_t;
+            out_trait
+                .associated_types
+                .iter()
+                .map(|associated_type| {
+                    let attrs = associated_type
+                        .attrs
+                        .iter()
+                        .filter(|attr| attr.path().is_ident("cfg"));
+                    let ident = &associated_type.ident;
+                    let (impl_generics, type_generics, where_clause) =
+                        associated_type.generics.split_for_impl();
+                    quote! {
+                        #(#attrs)*
+                        type #ident #impl_generics = <#impl_t as #trait_ident #args>::#ident #type_generics #where_clause;
+                    }
+                })
+                .collect::<Vec<_>>()
+        }
+        _ => match out_trait.associated_types.first() {
+            Some(associated_type) => {
+                return Err(syn::Error::new(
+                    associated_type.ident.span(),
+                    "Associated types can only be delegated to a `T` that implements the trait itself (no `delegate_by = ref`/`Borrow`, no delegation target trait)",
+                ))
+            }
+            None => vec![],
+        },
+    };
+
     let out = quote! {
         #trait_def
 
@@ -121,6 +156,7 @@ pub fn output_tokens(
 
         #(#impl_sub_attributes)*
         #unsafety impl #params #trait_ident #args for #self_ty #where_clause {
+            #(#type_items)*
             #(#method_items)*
         }
     };
@@ -191,6 +227,7 @@ fn gen_impl_delegation_trait_defs(
                 trait_dependency_mode,
                 sub_attributes: impl_sub_attributes,
                 unsafety: None,
+                associated_types: &[],
             }
             .gen_trait_def(
                 &trait_copy.vis,
@@ -259,6 +296,7 @@ fn gen_impl_delegation_trait_defs(
                 trait_dependency_mode,
                 sub_attributes: impl_sub_attributes,
                 unsafety: None,
+                associated_types: &[],
             }
             .gen_trait_def(
                 &trait_copy.vis,
